@@ -498,7 +498,8 @@ Inductive query :=
 | QGetStr (i : nat)                         (* std::string Get() *)
 | QToString (i : nat)
 | QEq (i j : nat)                           (* operator== *)
-| QNe (i j : nat).                          (* operator!= : the negation of operator== *)
+| QNe (i j : nat)                           (* operator!= : the negation of operator== *)
+| QStream (i : nat) (w fill adj : N).       (* os << buffer; os.width() = w, os.fill() = fill, adjustfield left iff adj = 1 *)
 
 Inductive ans := ASkip | ANum (n : N) | ABytes (l : list N) | ABool (b : bool).
 
@@ -513,6 +514,18 @@ Fixpoint join_dec (l : list N) : list N :=
   | [x] => dec x
   | x :: r => dec x ++ 44 :: join_dec r
   end.
+
+(* std::ostream& operator<<(std::ostream &out, const DmxBuffer &data) { return out << data.ToString(); }
+   i.e. the insertion of a std::string: the characters of ToString(), padded ONCE as a whole to the
+   stream's width with its fill character (on the right iff adjustfield is left), after which the width is
+   0 again.  Nothing else of the stream's state takes part: not the base, showbase, showpos, uppercase,
+   precision or the numeric locale -- the model has no such inputs. *)
+Definition pad_text (w fill adj : N) (text : list N) : list N :=
+  if len text <? w then
+    let p := repeat fill (N.to_nat (w - len text)) in
+    if adj =? 1 then text ++ p else p ++ text
+  else text.
+Definition width_after_insert (w : N) : N := 0.
 
 Definition same_blk (a b : option nat) : bool :=
   match a, b with
@@ -593,6 +606,14 @@ Definition cquery (s : st) (q : query) : res ans :=
     else Ok ASkip
   | QEq i j => c_eq s i j
   | QNe i j => a <- c_eq s i j ;; Ok (match a with ABool b => ABool (negb b) | x => x end)
+  | QStream i w fill adj =>
+    if is_live s i then
+      b <- getb s i ;;
+      match m_blk b with
+      | Some id => d <- pread s (PBlk id 0) (m_len b) ;; Ok (ABytes (pad_text w fill adj (join_dec d)))
+      | None => Ok (ABytes (pad_text w fill adj []))
+      end
+    else Ok ASkip
   end.
 
 (* internal observables for the correspondence: (block id, cow flag, refcount) of a live buffer *)
